@@ -135,6 +135,14 @@ bool BuildLog::OpenForWriteIfNeeded() {
   if (log_file_ || log_file_path_.empty()) {
     return true;
   }
+  // A log that ends in the middle of a line (the last write was torn) would
+  // swallow the first record appended to it: note that, to start on a new line.
+  bool torn_tail = false;
+  if (FILE* f = fopen(log_file_path_.c_str(), "rb")) {
+    if (fseek(f, -1, SEEK_END) == 0)
+      torn_tail = fgetc(f) != '\n';
+    fclose(f);
+  }
   log_file_ = fopen(log_file_path_.c_str(), "ab");
   if (!log_file_) {
     return false;
@@ -150,6 +158,10 @@ bool BuildLog::OpenForWriteIfNeeded() {
 
   if (ftell(log_file_) == 0) {
     if (fprintf(log_file_, kFileSignature, kCurrentVersion) < 0) {
+      return false;
+    }
+  } else if (torn_tail) {
+    if (fputc('\n', log_file_) == EOF) {
       return false;
     }
   }
